@@ -279,7 +279,7 @@ func (cs *Contracts) loadContractFile(path string, pkg string, goFile bool) erro
 			if len(f) != 2 {
 				return fmt.Errorf("%s:%d: ghost NAME SORT", path, l.no)
 			}
-			cs.Ghosts = append(cs.Ghosts, ghostDecl{f[0], f[1]})
+			cs.Ghosts = append(cs.Ghosts, ghostDecl{name: f[0], sort: f[1], pkg: pkg})
 			curF, curLoop, curL = nil, nil, nil
 		case "type":
 			f := strings.Fields(rest)
